@@ -8,13 +8,13 @@ ROOT = os.path.dirname(os.path.dirname(os.path.abspath(__file__)))
 
 CLAIMED = {
     "C03": dict(
-        technique="Kani function contracts (proof_for_contract + stub_verified lemmas) on the real bitfield_unit.rs; CBMC, complete per storage size",
-        text="Deductive proof, per storage size N<=16, that all 12 accessor entry points of __BindgenBitfieldUnit equal the little-endian bit-vector model (value and frame) for every offset, width, storage content and value; lemmas (round trip, disjoint fields, constructor) proved over the contracts only. Known finding F1 on the region (off%8)+w>64.",
-        note="Trusted: Kani/CBMC; the u128 reference model; rule L1 (const generics lifted to value parameters); debug_assert!s taken as preconditions (established by bitfields_to_allocation_units, unverified); host little-endian/64-bit; accessor glue in codegen/mod.rs (sign extension) unverified.",
+        technique="Kani function contracts (proof_for_contract + stub_verified lemmas) on the real bitfield_unit.rs, complete per storage size; Verus contracts on extracted bitfields_to_allocation_units, pad_to_bitfield_unit, is_packed",
+        text="Deductive proof, per storage size N<=16, that all 12 accessor entry points of __BindgenBitfieldUnit equal the little-endian bit-vector model (value and frame) for every offset, width, storage content and value, with lemmas over the contracts (round trip, disjoint fields, constructor); and that the allocation of bit-fields to units obeys the psABI placement rule, keeps order without overlap and establishes the precondition of the accessors (three contracts by offset mode), that the unit lands at its C offset, and the packed decision. Known findings F1 (shift by 64) and F7 (union unit too short); F5 repaired.",
+        note="Trusted: Kani/CBMC, Verus/Z3; the u128 reference model; rules L1, R12-R16 (generic instantiation, for-loop and callback desugaring to trusted cursors); psABI placement rule as transcribed; libclang offsets non-decreasing and ABI-placed; host little-endian/64-bit. Unverified: accessor glue in codegen/mod.rs (cast chain, transmute: signed bit-fields are NOT sign-extended by it, observed, outside the contracts), raw_fields_to_fields_and_bitfield_units grouping, units longer than 16 bytes for the accessor proofs.",
         ref="DESIGN.md §3 C03"),
     "C02": dict(
-        technique="Verus contracts on mechanically extracted real functions (struct_layout.rs, ir/layout.rs, helpers.rs): representation invariant, placement and size theorems, blob exactness",
-        text="Deductive proof (Verus/Z3, unbounded) on the extracted text of the layout tracker: align_to is the least multiple; Layout::for_size picks the largest dividing power of two; blob/known_type_for_size emit a type of exactly the requested size and alignment; the tracker invariant is preserved by every operation; PLACEMENT THEOREM: in a plain struct the padding returned by saw_field_with_layout puts the next field at the byte offset clang reports; SIZE THEOREM for pad_struct; requires_explicit_align. Found and repaired F2/F4.",
+        technique="Verus contracts on mechanically extracted real functions (struct_layout.rs, ir/layout.rs, helpers.rs, comp.rs): tracker invariant, placement/size theorems, blob exactness, primitive type mapping, packed decisions",
+        text="Deductive proof (Verus/Z3, unbounded) on the extracted text of 30 functions: align_to is the least multiple; Layout::for_size picks the largest dividing power of two; blob/known_type_for_size emit a type of exactly the requested size and alignment; the tracker invariant is preserved by every operation; PLACEMENT THEOREM: in a plain struct the padding returned by saw_field_with_layout / pad_to_bitfield_unit puts the next field / bit-field unit at the byte offset clang reports, for every alignment; SIZE THEOREM for pad_struct; requires_explicit_align; int/float kind -> Rust type of the same width and sign; is_packed / already_packed. Found and repaired F2, F4, F5.",
         note="Trusted: Verus/Z3; extraction rules R1-R10; Rust-reference layout rules for emitted type tokens (env); libclang numbers; uninterpreted context reads. Unverified: CompInfo::codegen call order and repr selection, packed/union/bit-field-adjacent placement (invariant+safety only), primitive type mapping, pad_struct sub-region with 8-aligned inexact padding.",
         ref="DESIGN.md §3 C02"),
     "C04": dict(
@@ -33,9 +33,9 @@ CLAIMED = {
         note="Narrow. Trusted: read-sets derived by reading each constrain; Kani/Verus. Unverified: constrain bodies on real IR, the worklist driver analyze (closure captures &mut), Trace impls, termination, declaration-order corollary.",
         ref="DESIGN.md §3 C07"),
     "C08": dict(
-        technique="Verus contracts on the extracted impl CanDerive* gate bodies + Kani in-crate proofs of the private DeriveTrait rule tables against a property-derived oracle",
-        text="Deductive proof that each CanDerive* query is exactly option && analysis lookup (&& no float for Eq/Ord), and that the per-kind derive rule tables (floats/Hash, pointers+enums/Default, unions only Copy, destructor/Copy, vtable/Default, forward decl, incomplete arrays, vectors/PartialOrd) equal the rules the property lists, for all 5 traits x 17 constructible type kinds; fn-pointer 12-argument rule bounded (0/12/13 args).",
-        note="Trusted: Kani/Verus; oracle tables; T instantiated at ItemId. Unverified: CannotDerive::constrain_type on real IR, derives_of_item, hand-written impl bodies.",
+        technique="Verus contracts on extracted CannotDerive::constrain_type, DeriveTrait rule functions, impl CanDerive* gates, derives_of_item, function_pointers_can_derive + Kani in-crate proofs of the private rule tables against a property-derived oracle",
+        text="Deductive proof that the whole per-type derive rule (blocklisted, excluded by name, opaque, simple kinds, pointers and fn pointers of every arity, arrays incl. the 32-element tier, vectors, compounds with destructor/vtable/union/forward-decl rules, references and template instantiations via an uninterpreted member join) equals the rules the property lists; each CanDerive* query is exactly option && analysis lookup (&& no float for Eq/Ord); derives_of_item applies packed-requires-Copy and annotation exclusions exactly.",
+        note="Trusted: Kani/Verus; oracle rules written from the property; uninterpreted IR reads and member join (constrain_join); T instantiated at ItemId; DerivableTraits modelled as one bool per flag. Unverified: constrain_join/Trace (which members are joined), the large-alignment override and insert in CannotDerive::constrain, hand-written impl bodies (impl_debug.rs, impl_partialeq.rs, Default via write_bytes).",
         ref="DESIGN.md §3 C08"),
     "C09": dict(
         technique="Verus contracts on extracted traversal::codegen_edges / only_inner_type_edges / all_edges",
@@ -43,19 +43,19 @@ CLAIMED = {
         note="Narrow. Trusted: Verus/Z3; uninterpreted CodegenConfig reads; type-edge table from the Trace impls. Unverified: root selection, ItemTraversal, Trace impls, regex anchoring, textual identity.",
         ref="DESIGN.md §3 C09"),
     "C10": dict(
-        technique="Verus contracts on extracted helpers::blob / Layout::known_type_for_size / for_size_internal (shared with C02)",
-        text="Deductive proof that the opaque blob emitted for any layout libclang can report (size multiple of alignment, alignment 0 or a power of two) has exactly that size and alignment, on the ffi-safe and the padding path, including len==1 and align>4. Only the opaque-blob half of C10.",
-        note="Trusted: as C02. Unverified: blocklist tests, IsOpaque, tracing cut-off, trait vouching (IR/regex-bound).",
+        technique="Verus contracts on extracted Item::is_blocklisted, CannotDerive::constrain_type (blocklisted rule first), helpers::blob / Layout::known_type_for_size / for_size_internal",
+        text="Deductive proof that (a) the blocklist test is exactly: hidden, in a blocklisted file, matched by the generic item list or by the list of the kind of the item, or a replaced type; (b) a type outside the allowlisted set derives a trait only as far as the callback of the user vouches, before any other rule; (c) the opaque blob emitted for any layout libclang can report has exactly that size and alignment.",
+        note="Trusted: as C02/C08; regex matching and path computation uninterpreted. Unverified: that every codegen entry point consults is_blocklisted, IsOpaque, tracing cut-off at opaque types, the body of blocklisted_type_implements_trait.",
         ref="DESIGN.md §3 C10"),
     "C12": dict(
-        technique="Verus/Kani safety obligations (overflow, underflow, unwrap, callee preconditions, termination) of every function under contract; concrete Kani witnesses for from_str",
-        text="Deductive proof of panic-freedom and termination for the functions under contract (layout tracker, Layout, blob, ...), under stated preconditions; regression guards for the repaired defects F2 (add_tail_padding underflow) and F3 (from_str underflow, concrete witness harnesses = bounded).",
+        technique="Verus/Kani safety obligations (overflow, underflow, unwrap, run-time assert!/unreachable!, callee preconditions, termination) of every function under contract; concrete Kani witnesses for from_str",
+        text="Deductive proof of panic-freedom and termination for the ~60 functions under contract in all Verus units (layout tracker, Layout, blob, bit-field allocation, constrain_type incl. its assert!/unreachable! sites as obligations under stated IR invariants, ...); regression guards for the repaired defects F2 and F3 (concrete witness harnesses = bounded).",
         note="Trusted: as C02. Narrow: the hundreds of unwrap/expect sites that depend on libclang AST shapes, recursion depth and Builder::generate error paths are not under contract.",
         ref="DESIGN.md §3 C12"),
     "C14": dict(
-        technique="Kani function contracts on the real features.rs over the full u64 version domain; CBMC, complete",
-        text="Deductive proof over every (minor, patch) in u64 x u64, nightly, and all editions that RustFeatures::new equals the release-notes gating table, is monotone in the version, ignores the patch level; edition availability and latest_edition; RustTarget::stable rejects exactly minor<51; LATEST/EARLIEST constants.",
-        note="Trusted: Kani/CBMC; the release-notes oracle table. Unverified: that every codegen site consults its flag; edition validation in Builder::generate; RustTarget::from_str/default.",
+        technique="Kani function contracts on the real features.rs over the full u64 version domain (complete) + Verus contract on the extracted FunctionSig::abi gating site",
+        text="Deductive proof over every (minor, patch) in u64 x u64, nightly, and all editions that RustFeatures::new equals the release-notes gating table, is monotone, ignores the patch level; edition availability and latest_edition; RustTarget::stable rejects exactly minor<51; and that FunctionSig::abi accepts an ABI (after --override-abi) only if the feature set allows it.",
+        note="Trusted: Kani/CBMC, Verus; the release-notes oracle table; override lookup as one uninterpreted accessor. Unverified: the other codegen sites that must consult a flag (Var::codegen cstr arms: seed S12 missed; observed on the unchanged tree: --use-core --generate-cstr emits ::core::ffi::CStr for 1.59-1.63 although it is stable since 1.64), edition validation in Builder::generate, RustTarget::from_str/default.",
         ref="DESIGN.md §3 C14"),
 }
 
